@@ -339,6 +339,8 @@ func ruleC05(c *Ctx) {
 	c.rule("C05-R6", "each assertion's bounds are its own: every verified assertion is decoded into a fresh object (shared appendProvenance, also C01-R2 / C03-R4 / C04-R5 / C08-R4) — encoding/xml merges into existing state, so a reused target makes assertions share Subject / Conditions")
 	appendProvenance(c, "C05-R6")
 	c.rule("C05-R5", "the warning is computed on element [0] of the validated response; the hard expiry sits in the all-assertions loop")
+	c.rule("C05-R7", "the hard expiry is evaluated on every acceptance, at this call's clock reading: every accepting path of ValidateEncodedResponse ends with sp.Validate(returned object) == nil (shared validationDominates, also C03-R3) — an object handed back from an earlier call was judged at an earlier instant")
+	validationDominates(c, "C05-R7", "(*SAMLServiceProvider).ValidateEncodedResponse", "(*SAMLServiceProvider).Validate", 3)
 
 	// --- hard expiry in Validate
 	res := c.kernel("(*SAMLServiceProvider).Validate", "*")
